@@ -442,6 +442,12 @@ def run(ctx):
                     if any(isinstance(c, ast.Constant) and c.value == 'config' for c in ast.walk(test)):
                         arm = body
         if arm is None:
+            # dispatch through a table of per-subcommand functions: the arm is the body of the function that calls config_func
+            holders = [f for fid_, f in repo.functions.items() if fid_.startswith(mod + ':') and f is not mn and
+                       any(isinstance(x, ast.Call) and isinstance(x.func, ast.Attribute) and x.func.attr == 'config_func' for x in walk_no_nested(f))]
+            if len(holders) == 1:
+                arm = holders[0].body
+        if arm is None:
             raise AnalysisError('%s:main: config arm not found' % mod)
         rets = [r for st in arm for r in ast.walk(st) if isinstance(r, ast.Return)]
         forwards = [r for r in rets if r.value is not None and any(isinstance(x, ast.Attribute) and x.attr == 'config_func' for x in ast.walk(r.value))]
